@@ -1,0 +1,47 @@
+//go:build verif
+
+package layout
+
+import bo "github.com/benoitkugler/webrender/html/boxes"
+
+// VerifBrokenMapOp is one operation of a history on a brokenOutOfFlowMap
+// (verification harness of property C15). Keys and values are indices into a
+// pool of distinct boxes.
+// Kind: 0 set(K, V), 1 delete(K), 2 clear, 3 update(a map built by setting Other in order)
+type VerifBrokenMapOp struct {
+	Kind, K, V int
+	Other      [][2]int
+}
+
+// VerifBrokenMapRun runs the history on an empty map and returns the
+// indices of the values listed by values(), in order.
+func VerifBrokenMapRun(ops []VerifBrokenMapOp, pool int) []int {
+	boxes := make([]Box, pool)
+	index := map[Box]int{}
+	for i := range boxes {
+		boxes[i] = &bo.BlockBox{}
+		index[boxes[i]] = i
+	}
+	m := newBrokenOutOfFlowMap()
+	for _, op := range ops {
+		switch op.Kind {
+		case 0:
+			m.set(boxes[op.K], brokenBox{box: boxes[op.V]})
+		case 1:
+			m.delete(boxes[op.K])
+		case 2:
+			m.clear()
+		case 3:
+			other := newBrokenOutOfFlowMap()
+			for _, kv := range op.Other {
+				other.set(boxes[kv[0]], brokenBox{box: boxes[kv[1]]})
+			}
+			m.update(other)
+		}
+	}
+	var out []int
+	for _, v := range m.values() {
+		out = append(out, index[v.box])
+	}
+	return out
+}
